@@ -238,9 +238,29 @@ fn run_job(job: &Job) -> JobResult {
             } else {
                 "panic".into()
             };
-            JobResult::Panicked(msg)
+            JobResult::Panicked(mask_ids(&msg))
         }
     }
+}
+
+/// Arena / interner ids inside a panic message (`ExprKey(1532v1)`, `TypeKey(..)`) depend on what
+/// the process interned before; they are not part of a job's result.
+fn mask_ids(msg: &str) -> String {
+    let mut out = String::with_capacity(msg.len());
+    let mut rest = msg;
+    while let Some(pos) = rest.find("Key(") {
+        out.push_str(&rest[..pos + 4]);
+        rest = &rest[pos + 4..];
+        match rest.find(')') {
+            Some(end) => {
+                out.push('_');
+                rest = &rest[end..];
+            }
+            None => break,
+        }
+    }
+    out.push_str(rest);
+    out
 }
 
 fn sh_config(persist_dir: Option<&str>) -> ShConfig {
@@ -487,7 +507,7 @@ const WORDS: [&str; 16] = [
 /// glob imports of two modules exporting the same name, and a neighbour that merely uses the same
 /// spellings as ordinary identifiers.
 fn gen_special(r: &mut Rng) -> String {
-    let which = r.below(8);
+    let which = r.below(9);
     gen_special_of(r, which)
 }
 
@@ -495,6 +515,48 @@ fn gen_special_of(r: &mut Rng, which: u64) -> String {
     let mut w: Vec<&str> = WORDS.to_vec();
     r.shuffle(&mut w);
     match which {
+        // programs with large types: tuples nested 8..28 levels (one `let` per level: a literal
+        // nested six levels deep does not parse), wide tuples, or closures returning closures;
+        // every walk over such a type is a long, deep stretch of type-arena operations
+        8 => {
+            let base = r.range(1, 9) as f64 * 100.0;
+            match r.below(4) {
+                0 | 3 => {
+                    let depth = r.range(8, 28) as usize;
+                    let lets: String = (1..=depth).map(|i| format!("    let t{i} = (t{}, {:.1})\n", i - 1, base + i as f64)).collect();
+                    let leaves: Vec<String> = (0..depth).step_by(3).map(|lv| format!("u{}.1", ".0".repeat(lv))).collect();
+                    format!(
+                        "fn pass(x){{\n    x\n}}\nfn dsp(){{\n    let t0 = {base:.1}\n{lets}    let u = pass(t{depth})\n    {} + u{}\n}}\n",
+                        leaves.join(" + "),
+                        ".0".repeat(depth)
+                    )
+                }
+                1 => {
+                    let width = r.range(6, 16) as usize;
+                    let elems: Vec<String> = (0..width).map(|i| format!("{:.1}", base + i as f64)).collect();
+                    let names: Vec<String> = (0..width).map(|i| format!("e{i}")).collect();
+                    format!(
+                        "fn pair(x, y){{\n    (y, x)\n}}\nfn dsp(){{\n    let a = ({0})\n    let w = pair(a, a)\n    let (p, q) = w\n    let ({1}) = p\n    {2}\n}}\n",
+                        elems.join(", "),
+                        names.join(", "),
+                        names.join(" + ")
+                    )
+                }
+                _ => {
+                    let depth = r.range(3, 9) as usize;
+                    let mut body = String::from("x0");
+                    for i in 1..depth {
+                        body.push_str(&format!(" + x{i}"));
+                    }
+                    let mut f = body;
+                    for i in (1..depth).rev() {
+                        f = format!("|x{i}| {{ {f} }}");
+                    }
+                    let calls: String = (1..depth).map(|i| format!("({:.1})", base + i as f64)).collect();
+                    format!("fn curry(x0){{\n    {f}\n}}\nfn dsp(){{\n    let g = curry({base:.1})\n    g{calls}\n}}\n")
+                }
+            }
+        }
         // type aliases with fixed names whose targets differ from job to job, nested in another alias
         7 => {
             let g = ["2.0", "0.5", "3.0"][r.below(3) as usize];
@@ -623,7 +685,7 @@ fn gen_scenario(seed: u64) -> Scenario {
     let identical = r_cfg.chance(1, 4);
     // family: every job is an instance of the same special template (same shape, other constants
     // and names), so all threads go through the same compiler phases at the same time
-    let same_template = if r_cfg.chance(1, 4) { Some(r_cfg.below(8)) } else { None };
+    let same_template = if r_cfg.chance(1, 4) { Some(r_cfg.below(9)) } else { None };
     let mut jobs = vec![];
     for i in 0..k {
         let src = if let Some(t) = same_template {
@@ -681,6 +743,16 @@ fn gen_scenario(seed: u64) -> Scenario {
             });
             j.wasm = false;
             j.driver = Some(*r_drv.pick(&[0u32, 0, 22050, 44100, 48000, 96000]));
+        }
+    }
+    // family: every job has large types (deep / wide tuples, curried closures), so that the long
+    // walks over a type overlap between threads
+    let mut r_big = root.sub("large-types");
+    if r_big.chance(1, 6) {
+        libs.clear();
+        for j in jobs.iter_mut() {
+            j.src = Src::Text(gen_special_of(&mut r_big, 8));
+            j.driver = None;
         }
     }
     if r_cfg.chance(1, 2) {
